@@ -82,6 +82,14 @@ Theorem C14_on_disconnect_once : forall ids h, NoDup ids -> ids <> [] -> valid_h
 Proof. exact on_disconnect_once_per_notice. Qed.
 Print Assumptions C14_on_disconnect_once.
 
+(** Runs are invariant under inserting persist / restore steps anywhere in a history: every
+    theorem above therefore also holds for histories during which the connectivity table is
+    serialised and restored any number of times.  (That the serde round trip really is the
+    identity on the implementation is checked by the correspondence runs, [o_rt].) *)
+Theorem C14_persist_restore_invariant : forall l e, run_steps e l = run e (events_of l).
+Proof. exact run_steps_events. Qed.
+Print Assumptions C14_persist_restore_invariant.
+
 (** Non-vacuity: three exchanges (ids 7, 3, 9 in index order), a history in which everything
     heals (global becomes Healthy), one account link drops and heals again. *)
 Definition c14_ids : list N := [7; 3; 9]%N.
